@@ -400,6 +400,8 @@ class Folder:
                     return getattr(base, e.attr)
                 if isinstance(base, (int, Fraction)) and not isinstance(base, bool) and e.attr in ("numerator", "denominator"):
                     return getattr(base, e.attr)
+                if isinstance(base, ARange) and e.attr in ("start", "stop", "step"):
+                    return getattr(base, e.attr)
                 if isinstance(base, ClassInfo) and self.repo is not None:
                     # a member reached through a class held in a variable (`cls.helper`, `K.CONSTANT`)
                     m_ = self.repo.lookup_method(base, e.attr)
@@ -428,6 +430,8 @@ class Folder:
             if isinstance(base, dict) and e.attr in base:
                 return base[e.attr]
             if isinstance(base, (int, Fraction)) and not isinstance(base, bool) and e.attr in ("numerator", "denominator"):
+                return getattr(base, e.attr)
+            if isinstance(base, ARange) and e.attr in ("start", "stop", "step"):
                 return getattr(base, e.attr)
             if isinstance(base, Abstract) and (not e.attr.startswith("__") or e.attr == "__name__") and (type(base).__name__ != "AObj" or e.attr in base.__dict__ or e.attr in ("_replace", "_asdict")) and hasattr(base, e.attr):
                 return getattr(base, e.attr)
@@ -626,7 +630,7 @@ class Folder:
 
         def rec(i: int, env: Dict[str, Any]) -> None:
             if len(out) > 100000:
-                raise Unfoldable("comprehension too large")
+                raise TooLarge("comprehension with more than 100000 elements")
             f = Folder(env, self.repo, self.mod, self.cls, self.hook)
             f.depth = self.depth
             if i == len(e.generators):
@@ -852,7 +856,7 @@ class Folder:
             raise Unfoldable(unparse(e))
         if name in ("min", "max", "sorted"):
             vals = [self.fold(a) for a in args]
-            if len(vals) == 1 and isinstance(vals[0], (list, tuple, frozenset, set)):
+            if len(vals) == 1 and isinstance(vals[0], (list, tuple, frozenset, set, ARange)):
                 vals = list(vals[0])
             kw = {k.arg: self.fold(k.value) for k in e.keywords if k.arg}
             keyf = kw.pop("key", None)
@@ -1041,9 +1045,9 @@ class Folder:
             return any(vals) if name == "any" else all(vals)
         if name == "range":
             vals = [self.fold(a) for a in args]
-            if not all(isinstance(v, int) for v in vals) or (len(range(*vals)) > 100000):
+            if not all(isinstance(v, int) for v in vals):
                 raise Unfoldable(unparse(e))
-            return list(range(*vals))
+            return ARange(range(*vals))
         if name == "enumerate":
             st_ = [self.fold(args[1])] if len(args) > 1 else [self.fold(k.value) for k in e.keywords if k.arg == "start"]
             return list(enumerate(self.fold(args[0]), *st_))
@@ -1151,7 +1155,7 @@ class Folder:
                 vals = [list(self.fold(a)) for a in args]
             out_ = list(getattr(_it, name.split(".")[1])(*vals, **kw))
             if len(out_) > 200000:
-                raise Unfoldable("enumeration too large")
+                raise TooLarge("%s enumerates more than 200000 combinations" % unparse(e)[:60])
             return out_
         if name in ("collections.defaultdict", "defaultdict") and len(args) == 1 and dotted(args[0]) in ("list", "set", "dict", "int"):
             import collections as _c
@@ -1177,10 +1181,16 @@ class Folder:
                         kn.append(x.name if isinstance(x, (ClassInfo, _TypeOf)) else getattr(x, "__name__", None) if isinstance(x, type) else dk)
                 else:
                     kn.append(dk)
+            if "range" in kn and not isinstance(v, Abstract):
+                if isinstance(v, ARange):
+                    return True
+                kn = [k for k in kn if k != "range"]
+                if not kn:
+                    return False
             pyk = {"bytes": bytes, "bytearray": bytearray, "int": int, "bool": bool, "str": str, "float": float, "complex": complex, "memoryview": memoryview, "object": object, "fractions.Fraction": Fraction, "Fraction": Fraction, "set": (set, frozenset), "frozenset": frozenset, "list": list, "tuple": tuple, "dict": dict}
             if all(k in pyk for k in kn) and not isinstance(v, Sym) and not isinstance(getattr(v, "_isa_", None), (set, frozenset)):
                 return any(isinstance(v, pyk[k]) for k in kn)  # type: ignore
-            if not isinstance(v, Abstract) and (v is None or isinstance(v, (int, str, float, bool, Fraction, list, tuple, dict, set, frozenset, bytes, bytearray, memoryview))):
+            if not isinstance(v, Abstract) and (v is None or isinstance(v, (int, str, float, bool, Fraction, list, tuple, dict, set, frozenset, bytes, bytearray, memoryview, ARange))):
                 # a plain value is an instance of the builtin classes listed, never of a class of the repository
                 res_ = False
                 known = True
@@ -1308,6 +1318,59 @@ class Folder:
             if isinstance(fv, (_Lambda, _LocalFn, _Partial)) or type(fv).__name__ == "_BoundMethod" or (isinstance(fv, Abstract) and callable(fv)):
                 return call_value(self, fv, [self.fold(a) for a in args], {k.arg: self.fold(k.value) for k in e.keywords if k.arg})
         raise Unfoldable("call " + unparse(e))
+
+
+class ARange:
+    """`range(...)` as the evaluated program has it: constant-time to build, to measure, to index and to slice - and refusing to
+    be *walked* when it has more elements than any analysis domain needs (TooLarge), so that an enumeration whose size follows
+    a numeric parameter shows itself where it happens"""
+
+    LIMIT = 100000
+
+    def __init__(self, r: range):
+        self.r = r
+        self.start, self.stop, self.step = r.start, r.stop, r.step
+
+    def __len__(self) -> int:
+        return len(self.r)
+
+    def __iter__(self) -> Any:
+        if len(self.r) > ARange.LIMIT:
+            raise TooLarge("a range of %d elements is enumerated" % len(self.r))
+        return iter(self.r)
+
+    def __getitem__(self, i: Any) -> Any:
+        v = self.r[i]
+        return ARange(v) if isinstance(v, range) else v
+
+    def __contains__(self, x: Any) -> bool:
+        return x in self.r
+
+    def __eq__(self, o: Any) -> bool:
+        return (isinstance(o, ARange) and o.r == self.r) or (isinstance(o, range) and o == self.r)
+
+    def __hash__(self) -> int:
+        return hash(self.r)
+
+    def __bool__(self) -> bool:
+        return len(self.r) > 0
+
+    def __reversed__(self) -> Any:
+        return iter(ARange(self.r[::-1]))
+
+    def __repr__(self) -> str:
+        return repr(self.r)
+
+    def index(self, x: Any) -> int:
+        return self.r.index(x)
+
+    def count(self, x: Any) -> int:
+        return self.r.count(x)
+
+
+class TooLarge(Unfoldable):
+    """the evaluated code builds or walks a collection with more elements than any analysis domain of the rules needs: the
+    sign of an enumeration whose size grows with a numeric parameter"""
 
 
 class FoldKeyError(Unfoldable):
